@@ -97,6 +97,7 @@ func stressRound(o *Out, rng *rand.Rand, clients, perClient int) {
 		quiet bool
 	}
 	all := make([][]sent, clients)
+	lost := make([]int, clients)
 	var wg sync.WaitGroup
 	seeds := make([]int64, clients)
 	for i := range seeds {
@@ -159,7 +160,19 @@ func stressRound(o *Out, rng *rand.Rand, clients, perClient int) {
 				}
 				_ = conn.SetReadDeadline(time.Now().Add(wait))
 				buf := make([]byte, 4096)
-				if m, err := conn.Read(buf); err == nil {
+				m, err := conn.Read(buf)
+				if err != nil && !quiet {
+					// UDP may lose datagrams and a loaded machine may be slow: wait once more, then give up on
+					// this request (inconclusive, not a violation; response counts are checked deterministically
+					// by the in-process end-to-end part)
+					_ = conn.SetReadDeadline(time.Now().Add(6 * time.Second))
+					m, err = conn.Read(buf)
+					if err != nil {
+						lost[c]++
+						continue
+					}
+				}
+				if err == nil {
 					s.resp = append(s.resp, append([]byte{}, buf[:m]...))
 				}
 				all[c] = append(all[c], s)
@@ -199,7 +212,7 @@ func stressRound(o *Out, rng *rand.Rand, clients, perClient int) {
 	cc := fmt.Sprintf("{| e_key := %s; e_skew := %s; e_uspoof := false; e_hspoof := false; e_hdrname := []; e_maxnw := %d; e_defnw := %d; e_maxscrape := %d; e_interval := %s; e_min_interval := %s |}",
 		cB([]byte(cfg.Key)), cZ(cfg.SkewNs), cfg.MaxNW, cfg.DefNW, cfg.MaxScrape, cZ(cfg.Interval), cZ(cfg.MinIntv))
 	o.add(Case{Coq: fmt.Sprintf("(%s, [\n  %s])", cc, joinLines(append(pop, terms...))), Kind: "udp-stress",
-		In:  map[string]interface{}{"clients": clients, "per_client": perClient, "requests": nreq},
+		In:  map[string]interface{}{"clients": clients, "per_client": perClient, "requests": nreq, "unanswered_skipped": sumInts(lost)},
 		Obs: map[string]interface{}{"requests": nreq}})
 }
 
@@ -228,4 +241,12 @@ func raceStream(o *Out, rng *rand.Rand, n int) {
 		stressRound(o, rng, 24, 5)
 	}
 	raceStores(rng, n)
+}
+
+func sumInts(l []int) int {
+	t := 0
+	for _, v := range l {
+		t += v
+	}
+	return t
 }
